@@ -25,8 +25,8 @@ Oracle (from the statement; only introductions handed out by the public introduc
       by the same delivered request (``pkt.cause``), addressed to the (NAT mapped) address of the introduced peer and
       naming the requester's address as the one to puncture;
   (2) after the attempts and quiescence the requester is in ``get_peers()`` of the introduced peer and vice versa;
-  (3) a pair behind the same NAT completed an introduction-request / -response exchange over LAN addresses
-      (private destination, no translation).
+  (3) for a pair behind the same NAT the signed introduction requests / responses that made them peers of each other
+      travelled over LAN addresses in both directions (private destination, no translation).
 The NAT drop log, unroutable LAN attempts etc. are reach evidence, never oracle.  Nothing is asserted about
 symmetric NATs, mapping timeouts, or introductions handed out by NATed nodes (they hand out what they see).
 """
@@ -73,7 +73,14 @@ ASSUMPTIONS = ["cone NATs only (one mapping per inner socket whatever the destin
                "the requester's contact attempt happens after the network is quiescent (the puncture has left); the "
                "protocol has no retry inside one walk step",
                "under loss only introductions of rounds in which no datagram was lost are judged",
-               "hairpin traffic is filtered by the NAT like any other inbound traffic"]
+               "hairpin traffic is filtered by the NAT like any other inbound traffic",
+               "premise 'the requester makes a contact attempt after the introduction': a pair is not judged when the "
+               "requester had already tried a handed-out address before B introduced it (learnt from a third peer's "
+               "response) and never tried it afterwards - RandomWalk then drops the re-introduced address together "
+               "with the timed-out earlier attempt (probe not_judged_address_tried_before_introduction_only)",
+               "a same-NAT pair that was connected through the NAT by an address which only a NATed third peer handed "
+               "out (it does not know the LAN address of a peer it walked to itself) is not judged by the LAN oracle "
+               "(probe same_nat_pair_connected_by_foreign_introduction)"]
 REACH = ["introductions_judged", "puncture_request_observed", "puncture_dropped_at_restricted_nat",
          "lan_delivery_inside_nat", "new_style_exchange", "old_style_exchange", "unroutable_lan_attempt",
          "hole_punch_needed_and_worked", "same_nat_pair_over_lan", "randomwalk_steps", "retry_clean_round",
@@ -670,20 +677,22 @@ def execute(case: dict) -> dict:  # noqa: C901, PLR0912, PLR0915
                 continue
             # ---- (3) same NAT: over the LAN
             if place == "same":
-                exs = sorted(exchanges(r_name, i_name) + exchanges(i_name, r_name), key=lambda e: e[0].id)
-                if any(e[2] for e in exs):
+                # what makes x a verified peer of y is a signed introduction request or response of x delivered to y
+                ri, ir = walks(r_name, i_name), walks(i_name, r_name)
+                if any(lan for _, lan in ri) and any(lan for _, lan in ir):
                     world.probe("same_nat_pair_over_lan")
                 else:
                     # connected through the NAT (hairpin).  Judged only when the address used was handed out by B to
                     # the sender: a NATed third peer that introduces what it sees is not what the statement is about.
-                    by_b = [e for e in exs if any(when <= e[0].t and tuple(e[0].dst) in addrs
-                                                  for when, addrs in handed.get(e[0].src_node, ()))]
-                    if by_b or not exs:
+                    reqs = [q for q, lan in ri + ir if not lan and q.data[22] in REQ_IDS]
+                    by_b = [q for q in reqs if any(when <= q.t and tuple(q.dst) in addrs
+                                                   for when, addrs in handed.get(q.src_node, ()))]
+                    if by_b or not reqs:
                         c.violate("lan", "same_nat_pair_not_over_lan",
                                   f"{r_name} {t.lan(r_name)} and {i_name} {t.lan(i_name)} share NAT "
                                   f"{t.nat(r_name).wan_ip} ({t.kind[r_name]}), B introduced lan={lan_i} wan={wan_i} and "
-                                  f"they became peers, but no introduction request/response pair between them "
-                                  f"travelled over LAN addresses. trace: {trace({r_name, i_name})}")
+                                  f"they became peers, but the introduction requests/responses that connected them did "
+                                  f"not travel over LAN addresses. trace: {trace({r_name, i_name})}")
                     else:
                         world.probe("same_nat_pair_connected_by_foreign_introduction")
             elif place == "different" and t.kind[i_name] in ("addr", "port") and punched(t, r_name, i_name):
@@ -712,18 +721,13 @@ def execute(case: dict) -> dict:  # noqa: C901, PLR0912, PLR0915
                     "nat_drops": {nat.wan_ip: len(nat.drops) for nat in net.nats.values()},
                     "trace": trace(set(t.nodes), 24)}
 
-    def exchanges(x: str, y: str) -> list:
-        """Completed exchanges (request x->y delivered, its response y->x delivered): (request, response, over LAN?)."""
+    def walks(x: str, y: str) -> list:
+        """Introduction requests / responses of x delivered to y: (pkt, untranslated and to a private address?)."""
         out = []
         for pid, (recv, _) in delivered.items():
             pkt = sent[pid]
-            if len(pkt.data) < 23 or pkt.src_node != x or recv != y or pkt.data[22] not in REQ_IDS:
-                continue
-            for pid2, (recv2, _) in delivered.items():
-                p2 = sent[pid2]
-                if p2.cause == pid and p2.src_node == y and recv2 == x and len(p2.data) > 22 and p2.data[22] in RESP_IDS:
-                    lan = all(_private(q.dst[0]) and tuple(q.wire_src) == tuple(q.src) for q in (pkt, p2))
-                    out.append((pkt, p2, lan))
+            if len(pkt.data) > 22 and pkt.src_node == x and recv == y and pkt.data[22] in REQ_IDS + RESP_IDS:
+                out.append((pkt, _private(pkt.dst[0]) and tuple(pkt.wire_src) == tuple(pkt.src)))
         return out
 
     def punched(t: Topo, r: str, i: str) -> bool:
